@@ -365,9 +365,26 @@ def seg_to_arr(I, s):
     return sym.arr_concat(s.segs)
 
 
+class SegColumn:
+    """one column of a loop-built frame (frame['name']): refers to the frame, no copy"""
+
+    def __init__(self, seg, name):
+        self.seg, self.name = seg, name
+
+    def items(self):
+        return [(sg.item if isinstance(sg, Family) else sg).cols[self.name] for sg in self.seg.segs]
+
+
 def seg_get(I, s, idx, what):
     if s.kind == 'list':
         return I.arr_get(seg_to_arr(I, s), idx, what)
+    if s.kind == 'df' and isinstance(idx, str):
+        if not s.segs:
+            raise PyRaise('KeyError', idx)         # a frame without rows and columns
+        for sg in s.segs:
+            if idx not in (sg.item if isinstance(sg, Family) else sg).cols:
+                raise Unsupported('column missing in a part of a loop-built frame')
+        return SegColumn(s, idx)
     raise Unsupported('subscript of accumulator')
 
 
@@ -443,6 +460,16 @@ def pd_DataFrame(I, data=None, index=None, columns=None, **kw):
             for c in columns:
                 d.cols[c] = sym.empty_arr()
         return d
+    if isinstance(data, list) and len(data) == 1 and index is None and columns is None and type(data[0]).__name__ in ('Row', 'RowCopy'):
+        # pd.DataFrame([series]): one row, labelled with the series' name (the label of the row it was taken from),
+        # columns = the series' fields
+        r = data[0]
+        vals = {k: r.getitem(I, k) for k in r.fields()}
+        for k, v in vals.items():
+            if isinstance(v, Havoc):
+                raise Unsupported(f'frame from a row with an unknown field {k}: {v.why}')
+        lab = r.label()
+        return DF(1, Arr(1, lambda i, lab=lab: lab), {k: Arr(1, lambda i, v=v: v) for k, v in vals.items()})
     raise Unsupported('DataFrame(...) form')
 
 
@@ -1280,6 +1307,49 @@ class Row:
             raise PyRaise('KeyError', key)
         return self.df.cols[key].f(self.k)
 
+    def contains(self, I, key):
+        if not isinstance(key, str):
+            raise Unsupported('membership of a symbolic key in a row')
+        return key in self.df.cols
+
+    def label(self):
+        return self.df.index.f(self.k)
+
+    def fields(self):
+        return list(self.df.cols)
+
+
+class RowCopy:
+    """r.copy() of a frame row: a mutable Series -- the row's fields with overrides, same label.
+    Fields stored inside a symbolic loop that is deeper than the copy's creation are marked stale at the loop's
+    entry and exit (Interp.symbolic_for), so a read sees either this iteration's store or a Havoc."""
+
+    def __init__(self, row):
+        self.row, self.over = row, {}
+
+    def getitem(self, I, key, what=None):
+        if key in self.over:
+            return self.over[key]
+        return self.row.getitem(I, key, what)
+
+    def setitem(self, I, key, v):
+        if not isinstance(key, str):
+            raise Unsupported('row store with a symbolic key')
+        if I.guards:
+            raise Unsupported('row store under a symbolic guard')
+        self.over[key] = v
+
+    def contains(self, I, key):
+        if not isinstance(key, str):
+            raise Unsupported('membership of a symbolic key in a row')
+        return key in self.over or key in self.row.df.cols
+
+    def label(self):
+        return self.row.label()
+
+    def fields(self):
+        return self.row.fields() + [k for k in self.over if k not in self.row.df.cols]
+
 
 def df_attr(I, df, attr):
     if attr == 'index':
@@ -1371,9 +1441,30 @@ _old_value_attr = value_attr
 def value_attr(I, o, attr):      # noqa: F811  (extends the dispatcher above)
     if isinstance(o, Columns):
         return _columns_attr(I, o, attr)
+    if isinstance(o, SegColumn):
+        if attr == 'astype':
+            def _astype(I_, t, o=o):
+                # int64 of a column whose entries are integers already: the same column
+                if t not in ('int64', 'int', int):
+                    raise Unsupported('astype of a loop-built column to ' + str(t))
+                for a in o.items():
+                    probe = a.f(z3.Int('probe!astype'))
+                    if not (isinstance(probe, int) and not isinstance(probe, bool)) and not (is_z3(probe) and z3.is_int(probe)):
+                        raise Unsupported('astype(int) of a column with non-integer entries')
+                return o
+            return _astype
+        raise Unsupported('loop-built column.' + attr)
+    if isinstance(o, RowCopy):
+        if attr == 'copy':
+            def _copy(I_, o=o):
+                c = RowCopy(o.row)
+                c.over = dict(o.over)
+                return c
+            return _copy
+        raise Unsupported('row.' + attr)
     if isinstance(o, Row):
         if attr == 'copy':
-            return lambda I_: o
+            return lambda I_: RowCopy(o)
         if attr in o.df.cols:
             return o.df.cols[attr].f(o.k)
         raise Unsupported('row.' + attr)
